@@ -87,6 +87,51 @@ class Check:
         pass
 
 
+COV = None      # started by check.py before the implementation is imported, so module-level lines count
+
+
+def start_coverage():
+    """line coverage of the implementation while the cases run (reported per anchored file)"""
+    if os.environ.get("VERIF_COVERAGE", "1") == "0":
+        return None
+    try:
+        import coverage
+        from common import REPO
+        cov = coverage.Coverage(data_file=None, include=[str(REPO / "gradysim" / "*")])
+        cov.start()
+        return cov
+    except Exception:
+        return None
+
+
+def stop_coverage(cov, prop):
+    if cov is None:
+        return None
+    try:
+        from common import REPO
+        cov.stop()
+        files = []
+        for line in (VERIF / "properties.jsonl").read_text().splitlines():
+            if line.strip():
+                p = json.loads(line)
+                if p["id"] == prop:
+                    files = p["anchors"]["files"]
+        out = {}
+        for f in files:
+            path = REPO / f
+            if not path.exists():
+                continue
+            try:
+                _, stmts, _, missing, _ = cov.analysis2(str(path))
+                out[f] = {"statements": len(stmts), "executed": len(stmts) - len(missing),
+                          "percent": round(100.0 * (len(stmts) - len(missing)) / max(1, len(stmts)), 1)}
+            except Exception:
+                out[f] = {"statements": None, "executed": 0, "percent": 0.0}
+        return out
+    except Exception:
+        return None
+
+
 def load_known():
     if KNOWN.exists():
         return json.loads(KNOWN.read_text())
@@ -178,7 +223,9 @@ def _main(check, tier, seed, replay, t0):
     gate = proofgate.run(prop, tier)
     ensure_driver()
     cases = check.corpus() + list(check.generate(seed, tier))
+    cov = COV if COV is not None else start_coverage()
     rows = evaluate(check, cases)
+    anchored = stop_coverage(cov, prop)
 
     violations = []        # Failure objects not matched by a known finding
     known_hits = {}
@@ -274,6 +321,7 @@ def _main(check, tier, seed, replay, t0):
             "known_findings_reported": sorted(known_hits.keys()),
             "failing_input_search_cases": searched,
             "input_distribution": acc,
+            "anchored_file_line_coverage": anchored,
         },
         "assumptions": check.assumptions,
         "wall_s": round(time.time() - t0, 2),
